@@ -469,6 +469,21 @@ def evalLife (p : Pending) (glob : Oracle) (obsToks : List String) : String :=
 /-! language `tls` -/
 
 def evalTls (p : Pending) (glob : Oracle) (obsToks : List String) : String :=
+  if p.toks.contains "halfclose" then
+    -- a client that shuts its sending side behind the request still gets a complete, self-consistent file response
+    let ok := obsToks.contains "x:45:01" && !obsToks.contains "crash" && !obsToks.contains "hang"
+    let b (x : Bool) := if x then "1" else "0"
+    s!"RES {p.prop} {p.id} eq={b ok} hm=1 hi={b ok} miss=0 crash={b (obsToks.contains "crash" || obsToks.contains "hang")}" ++
+      (if ok then "" else " | x:45:01 | " ++ " ".intercalate obsToks)
+  else
+  if p.toks.contains "crowd" then
+    -- several clients at once, one of which leaves while others are still sending: everybody is served once and
+    -- nothing per-connection is left afterwards
+    let ok := obsToks.contains "x:44:01" && !obsToks.contains "crash" && !obsToks.contains "hang"
+    let b (x : Bool) := if x then "1" else "0"
+    s!"RES {p.prop} {p.id} eq={b ok} hm=1 hi={b ok} miss=0 crash={b (obsToks.contains "crash" || obsToks.contains "hang")}" ++
+      (if ok then "" else " | x:44:01 | " ++ " ".intercalate obsToks)
+  else
   if p.toks.contains "stall" then
     -- liveness scenario: the second client must be served while the first one does not read
     let ok := obsToks.contains "x:43:01" && !obsToks.contains "crash" && !obsToks.contains "hang"
